@@ -6,8 +6,8 @@ from gen import i1_line, i2_line, e_array
 from vlib import poly_eval
 
 ID = "C16"
-LEAN_MODULES = ["NdInterp.Props.C16", "NdInterp.Props.RatTie", "NdInterp.Props.IntTie", "NdInterp.Props.FormulaTie.Lin", "NdInterp.Props.FormulaTie.Bil", "NdInterp.Props.FormulaTie.SplSys", "NdInterp.Props.FormulaTie.SplEval", "NdInterp.Props.FormulaTie.TabSpec"]
-THEOREM_FILES = [("NdInterp/Props/C16.lean", "C16_"), ("NdInterp/Props/IntTie.lean", "C16_"), ("NdInterp/Props/FormulaTie/Lin.lean", "FT_lin_"), ("NdInterp/Props/FormulaTie/Bil.lean", "FT_bil_"), ("NdInterp/Props/FormulaTie/SplSys.lean", "FT_spl_"), ("NdInterp/Props/FormulaTie/SplEval.lean", "FT_spl_"), ("NdInterp/Props/FormulaTie/TabSpec.lean", "FT_tab_")]
+LEAN_MODULES = ["NdInterp.Props.C16", "NdInterp.Props.RatTie", "NdInterp.Props.IntTie", "NdInterp.Props.FormulaTie.Lin", "NdInterp.Props.FormulaTie.Bil", "NdInterp.Props.FormulaTie.SplSys", "NdInterp.Props.FormulaTie.SplEval", "NdInterp.Props.FormulaTie.TabSpec", "NdInterp.Props.FormulaTie.Ctl"]
+THEOREM_FILES = [("NdInterp/Props/C16.lean", "C16_"), ("NdInterp/Props/IntTie.lean", "C16_"), ("NdInterp/Props/FormulaTie/Lin.lean", "FT_lin_"), ("NdInterp/Props/FormulaTie/Bil.lean", "FT_bil_"), ("NdInterp/Props/FormulaTie/SplSys.lean", "FT_spl_"), ("NdInterp/Props/FormulaTie/SplEval.lean", "FT_spl_"), ("NdInterp/Props/FormulaTie/TabSpec.lean", "FT_tab_"), ("NdInterp/Props/FormulaTie/Ctl.lean", "FT_ctl_")]
 RULE = ("exact at Q: random polynomials with dyadic coefficients, all axis kinds, n from the strategy's minimum upwards, lanes holding "
         "different polynomials, dense in-range and extrapolated queries (up to 3 spans outside). Linear/affine, Bilinear/bilinear, "
         "NotAKnot/cubic (n>=4) and parabola (n=3), Natural/lines, Mixed with FirstDeriv p'(end) / SecondDeriv p''(end) / NotAKnot per "
